@@ -113,3 +113,46 @@ Example ex_session_returns :
   returns_after ex_mods [nth 0 ex_calls (mkCall 0 0 0 ex_rnd ex_produce ex_niter);
                          nth 2 ex_calls (mkCall 0 0 0 ex_rnd ex_produce ex_niter)] = true.
 Proof. split; vm_compute; reflexivity. Qed.
+
+(* ---- fixed terminals on an edge of the die and OUTSIDE it (pads drawn beyond the core): die 10 x 6, four soft
+   modules, PAD_E at (23/2, 3) beyond the right edge, PAD_N at (4, 8) above the top edge, PAD_W at (0, 2) on the left
+   edge, a pad far away at (10000, 6000).  The model returns and every pad is where it was: layout_fixed has no
+   hypothesis about where a fixed module lies ("discs fit in the die" is about the movable modules) ---- *)
+Definition ex_pad_mods : list (smod Qc) :=
+  [ mkSmod None false false false [] (qc 1 1);
+    mkSmod (Some (qc 2 1, qc 2 1)) false false false [] (qc 4 5);
+    mkSmod None false false false [] (qc 9 8);
+    mkSmod (Some (qc 9 1, qc 5 1)) false false false [] (qc 1 2);
+    mkSmod (Some (qc 23 2, qc 3 1)) true false true [] 0;
+    mkSmod (Some (qc 4 1, qc 8 1)) true false true [] 0;
+    mkSmod (Some (0, qc 2 1)) true false true [] 0;
+    mkSmod (Some (qc 10000 1, qc 6000 1)) true false true [] 0 ].
+Definition ex_pad_adj : list (list (nat * Qc)) :=
+  [[(6%nat, qc 1 1); (1%nat, qc 2 1); (3%nat, qc 1 2)]; [(0%nat, qc 2 1); (2%nat, qc 1 1)];
+   [(1%nat, qc 1 1); (3%nat, qc 1 1); (5%nat, qc 1 1); (7%nat, qc 1 1)]; [(2%nat, qc 1 1); (4%nat, qc 1 1); (0%nat, qc 1 2)];
+   [(3%nat, qc 1 1)]; [(2%nat, qc 1 1)]; [(0%nat, qc 1 1)]; [(2%nat, qc 1 1)]].
+Definition pads_kept (out : list (smod Qc)) : bool :=
+  forallb (fun p => match s_centre (fst p) with
+                    | Some c => Qceqb (fst c) (fst (snd p)) && Qceqb (snd c) (snd (snd p))
+                    | None => false
+                    end)
+          (combine (skipn 4 out) [(qc 23 2, qc 3 1); (qc 4 1, qc 8 1); (0, qc 2 1); (qc 10000 1, qc 6000 1)])
+  && Nat.eqb (List.length out) 8.
+Example ex_pads_outside_stay :
+  match spectral_layout f16_thr ex_rnd ex_produce ex_niter (fun m => s_other m) (qc 10 1) (qc 6 1) 2
+                        (mkSnet ex_pad_mods ex_pad_adj tt) with
+  | Ok out => pads_kept (s_mods out)
+  | _ => false
+  end = true.
+Proof. vm_compute. reflexivity. Qed.
+(* ... and again after a second call on the same object with a smaller die (7 x 9: PAD_N is then inside) *)
+Example ex_pads_outside_stay_session :
+  match sess_init (fun m => s_other m) (mkSnet ex_pad_mods ex_pad_adj tt) with
+  | Ok s0 => match sess_run f16_thr [mkCall (qc 10 1) (qc 6 1) 2 ex_rnd ex_produce ex_niter;
+                                     mkCall (qc 7 1) (qc 9 1) 1 (fun tr d i => ex_rnd (S tr) d i) ex_produce ex_niter] s0 with
+             | Ok s2 => pads_kept (ss_mods s2)
+             | _ => false
+             end
+  | _ => false
+  end = true.
+Proof. vm_compute. reflexivity. Qed.
